@@ -16,7 +16,7 @@
 From Coq Require Import List NArith Bool Arith Permutation Lia.
 Import ListNotations.
 Require Import MV.Common.Interleave MV.C05.Model MV.C05.Spec MV.C05.Exec.
-Require Import MV.C05.ProofsSeq MV.C05.ProofsInv MV.C05.ProofsCor MV.C05.ProofsUniq MV.C05.ProofsCons MV.C05.ProofsProg MV.C05.ProofsSnap MV.C05.ProofsEmpty MV.C05.ProofsOrder MV.C05.ProofsSpec MV.C05.ProofsTrace1 MV.C05.ProofsTrace2 MV.C05.ProofsTrace3 MV.C05.ProofsTrace4 MV.C05.ProofsTrace5.
+Require Import MV.C05.ProofsSeq MV.C05.ProofsInv MV.C05.ProofsCor MV.C05.ProofsUniq MV.C05.ProofsCons MV.C05.ProofsProg MV.C05.ProofsSnap MV.C05.ProofsEmpty MV.C05.ProofsOrder MV.C05.ProofsSpec MV.C05.ProofsTrace1 MV.C05.ProofsTrace2 MV.C05.ProofsTrace3 MV.C05.ProofsTrace4 MV.C05.ProofsTrace5 MV.C05.ProofsTrace6 MV.C05.ProofsTrace7.
 Local Open Scope nat_scope.
 
 (* (1) complete calls, run one after the other by any threads, are exactly the bag operations:
@@ -364,20 +364,22 @@ Proof.
 Qed.
 
 (* (10) second stage of the checker on the model.
-   FINDING ABOUT THE ORACLE (not the code): the statement
-     forall c, known_class c = None -> spec_ok c (run_case c) = true
-   is FALSE as it stands: Exec.final_data runs the final reader with a fuel of 400 rounds, so on a
-   case whose live chain has more than ~133 blocks (8700 pushes) the model's final read does not
-   finish, final = [] and clause S5 fails with done = true and known_class = None
-   (C05_spec_ok_on_model_needs_size_bound).  The full theorem therefore needs a size bound on the case.
+   CORRECTED ORACLE DEFECT: Exec.final_data used to give the final reader a constant 400 rounds of
+   fuel, so on a case whose live chain has more than ~133 blocks (8700 pushes) the model's final
+   read gave up, final = [] and clause S5 failed with done = true and known_class = None.  The
+   fuel is now Exec.final_fuel (4 * blocks allocated + 8), proved sufficient
+   (C05_final_read_finishes); C05_oversized_final_read_regression is the old witness.
    Proved in this stage, on every case: the clauses about the FINAL read that do not depend on it
    having finished (no duplicate, every value in the push table with a slot-write position) and
    clause S4 (claim positions strictly increase along every slice: thread slices and final read).
-   STILL MISSING for the conjunction: S3 (snapshot / is_empty completeness on positions) and S5
-   (pushes = cleared + final), both under done, S5 also under known_class = None and a size bound. *)
-Theorem C05_spec_ok_on_model_needs_size_bound :
-  exists c, known_class c = None /\ spec_ok c (run_case c) = false.
-Proof. exact spec_ok_on_model_needs_size_bound. Qed.
+   STILL MISSING for the conjunction C05_spec_ok_on_model: only S3 (snapshot / is_empty completeness
+   on trace positions, under done); S5 is C05_spec_conservation_on_model in section (11). *)
+Theorem C05_oversized_final_read_regression :
+  known_class oversized_case = None /\
+  (let '(_, rss, done, final, _) := run_case oversized_case in
+   done = true /\ length final = N.to_nat 136 /\
+   length (cleared_out rss ++ concat final) = N.to_nat 8700 /\ length (all_pushes (progs_of oversized_case) 0) = N.to_nat 8700).
+Proof. exact oversized_case_facts. Qed.
 
 Theorem C05_spec_final_read_on_model : forall c : case,
   let '(tr, _, _, final, _) := run_case c in
@@ -410,6 +412,27 @@ Proof.
   destruct H5 as [H5a H5b]. destruct H6 as [H6a H6b].
   rewrite H1, H2, H3, H4, H5a, H5b, H6a, H6b. reflexivity.
 Qed.
+
+(* (11) third stage.  The final read finishes: whenever every thread of a reachable configuration is
+   Done, the fresh reader of Exec.final_data, run with the state-derived fuel Exec.final_fuel, reaches
+   Done; every published slot of a block reachable from tail is in what it returns, and it returns
+   nothing else. *)
+Theorem C05_final_read_finishes : forall B fxc s ls, 1 <= B -> All B (s, ls) ->
+  (forall u l, nth_error ls u = Some l -> pcl l = Done) ->
+  let f := final_data B true fxc s in
+  (forall d i x, Reach (heap s) (tail s) d -> slot (heap s) d i = Some x -> pub (heap s) d i -> In x (concat f)) /\
+  (forall x, In x (concat f) -> exists d i, slot (heap s) d i = Some x /\ Reach (heap s) (tail s) d).
+Proof. intros B fxc s ls HB HA Hd. exact (final_read_finishes B HB fxc s ls HA Hd). Qed.
+
+(* clause S5 of the checker on the model: outside the late-claim class, when the run is done, the
+   push identities of the programs are exactly those handed to clears plus those of the final read *)
+Theorem C05_spec_conservation_on_model : forall c : case, known_class c = None ->
+  let '(tr, rss, done, final, _) := run_case c in
+  done = true ->
+  let rhs := flat_map handed (filter is_clear (rcalls tr 0 rss)) ++ concat final in
+  nodupb rhs && forallb (fun i => memb (px i) rhs) (pinfos tr 0 (progs_of c))
+  && Nat.eqb (length rhs) (length (pinfos tr 0 (progs_of c))) = true.
+Proof. exact spec_conservation_on_model. Qed.
 
 (* Block::len must be trailing_ones, not count_ones: in a reachable configuration where a snapshot
    stands at 506 after a passed quiescence test, a popcount length hands out an unwritten slot,
